@@ -190,6 +190,7 @@ class Client:
         self.log = []
         self.first_default = {}
         self.parse_memo = {}
+        self.extra_loaded = False
 
 
 def _outcome(fn):
@@ -316,6 +317,26 @@ def exec_op(cl: Client, op, stats, mode, peers=None):
             return ["val", observe(v), st.tell()]
         out = _outcome(f)
         key = (op["t"], op["seed"], op["n"], bool(op.get("bytes")), cs.endian)
+        if mode == "C14" and op["seed"] % 5 == 0 and not cl.extra_loaded:
+            # the same parse by an object with NO history: same definitions loaded into a fresh cstruct created with the
+            # endianness that is current now
+            def fresh():
+                from dissect.cstruct import cstruct
+
+                c2 = cstruct(endian=cs.endian, pointer=cl.spec["cfg"]["pointer"])
+                c2.load(gen.render(cl.spec["defs"]), compiled=cl.spec["cfg"]["compiled"], align=cl.spec["cfg"]["align"])
+                t2 = getattr(c2, op["t"])
+                if op.get("bytes"):
+                    return ["val", observe(t2(data)), -1]
+                st2 = io.BytesIO(data)
+                v2 = t2(st2)
+                return ["val", observe(v2), st2.tell()]
+            ref = _outcome(fresh)
+            stats.count("probe.parse_compared_with_fresh_object")
+            if ref != out:
+                raise Violation("parse_purity", "differs_from_object_without_history",
+                                f"parse {op['t']} under endian {cs.endian}: this object (with history) gave {out}, a fresh cstruct with the "
+                                f"same definitions and endianness gives {ref}")
         prev = cl.parse_memo.setdefault(key, out)
         stats.count("probe.parse_repeated" if prev is not out else "probe.parse_first")
         if prev != out:
@@ -368,13 +389,17 @@ def exec_op(cl: Client, op, stats, mode, peers=None):
         cs.endian = op["e"]
         return ["ok"]
     if k == "load_more":
+        cl.extra_loaded = True  # a successful or half-way load_more may legitimately replace/extend names
+
         def f():
             cs.load(op["text"], compiled=cl.spec["cfg"]["compiled"], align=cl.spec["cfg"]["align"])
             return ["ok"]
         return _outcome(f)
     if k == "load_bad":
+        cl.extra_loaded = True
         return _outcome(lambda: (cs.load(op["text"]), ["ok"])[1])
     if k == "add_type":
+        cl.extra_loaded = True
         return _outcome(lambda: (cs.add_type(op["name"], op["target"]), ["ok"])[1])
     if k == "resolve":
         def f():
